@@ -803,6 +803,11 @@ def run(tier):
         rep.traces += len(fcases)
         rep.sample({'character_level_case': {'text': fcases[-1]['text'], 'rows': fcases[-1]['rows_repr'],
                                              'outcome': fcases[-1]['out'], 'selected': fcases[-1]['sel']}})
+        # (E) the Grid.filter calls of the repository's own tests, judged by the same specification
+        rstats, rrejs = filterlex.judge_recorded(rep, work)
+        rep.extra['recorded_test_suite_filter_calls'] = rstats
+        rep.traces += rstats['calls']
+        frejs = frejs + rrejs
         for c, clause in frejs:
             viol.append((filterlex.features(c, clause),
                          {'role': 'D', 'text': c['text'], 'recipe': c['recipe'], 'rows': c['rows_repr'],
@@ -843,7 +848,14 @@ def replay(path):
     c = d['case']
     rep = Report('C11', 'quick')
     rep.replay_dir = rep.replay_dir + '/re'
-    if c['role'] == 'D':
+    if c['role'] == 'D' and c['recipe'].get('recorded'):
+        with Work('c11r') as work:
+            rstats, rrejs = filterlex.judge_recorded(rep, work)
+        print('recorded filter calls of the test-suite:', rstats)
+        for x, clause in rrejs:
+            print('rejected :', repr(x['text']), 'limit', x.get('k', 0), x['out'], x['sel'], clause, x.get('allowed'))
+        ok = not rrejs
+    elif c['role'] == 'D':
         from absval import Abs
         text, rows = filterlex.build(hs, filterlex.pools(hs), c['recipe'])
         with Work('c11r') as work:
